@@ -251,6 +251,8 @@ pub trait PsSide {
     fn upd(&mut self, p: usize) -> Out;
     fn counts(&mut self) -> Out;
     fn details(&self) -> (TypeInfo, TypeInfo);
+    /// forgets (leaks) a publisher: used by the self-test of the leak oracle only
+    fn forget_pub(&mut self, p: usize);
     /// drops every handle of this side (ports, samples, service, node)
     fn fin(&mut self);
 }
@@ -261,7 +263,8 @@ pub trait PsSide {
 /// own root directory: the shared /tmp/iceoryx2/{nodes,services} directories hold thousands of entries of
 /// other test processes and every node creation lists (and stats) them
 fn root_dir() -> String {
-    format!("/tmp/vf18_{}/", std::process::id())
+    // tmpfs: the static storages are fsync-ed on creation, which is slow on a loaded disk
+    format!("{}/vf18_{}/", if std::path::Path::new("/dev/shm").is_dir() { "/dev/shm" } else { "/tmp" }, std::process::id())
 }
 fn rust_config(prefix: &str) -> iceoryx2::config::Config {
     let mut config = iceoryx2::config::Config::global_config().clone();
@@ -399,6 +402,9 @@ macro_rules! r_ps_side {
                     dynamic: d.variant() == iceoryx2::service::static_config::message_type_details::TypeVariant::Dynamic,
                     name: format!("{}", d.type_name()), size: d.size(), align: d.alignment() };
                 (f(&m.payload), f(&m.user_header))
+            }
+            fn forget_pub(&mut self, p: usize) {
+                if let Some(x) = self.pubs.remove(&p) { std::mem::forget(x) }
             }
             fn fin(&mut self) {
                 self.samples.clear();
@@ -725,6 +731,9 @@ impl PsSide for CPs {
     }
     fn details(&self) -> (TypeInfo, TypeInfo) {
         (self.pay.clone(), self.uh.clone())
+    }
+    fn forget_pub(&mut self, p: usize) {
+        let _ = self.pubs.remove(&p);
     }
     fn fin(&mut self) {
         unsafe {
@@ -1208,6 +1217,8 @@ impl Comp for FfiComp {
                     "has" => w.rx().has(n(t[1])),
                     "upd" => w.tx().upd(n(t[1])),
                     "counts" => { let a = w.tx().counts(); let b = w.rx().counts(); Out::Ok(format!("{}|{}", canon(&a).0, canon(&b).0)) }
+                    // self-test of the leak oracle (never generated): a publisher whose handle is forgotten
+                    "leakpub" => { let r = w.tx().cpub(9999, 1, 1); w.tx().forget_pub(9999); r }
                     _ => panic!("bad op"),
                 }).collect();
                 join(outs)
